@@ -15,11 +15,41 @@ use std::collections::HashMap;
 use std::sync::atomic::{AtomicU64, Ordering};
 use std::sync::Mutex;
 
+thread_local! {
+    /// Key tables are built per worker thread from the same seeds (a ZobristTable is not required
+    /// to be shareable between threads). The last one is drawn unseeded (thread_rng), so it
+    /// differs between threads: it takes part in every per-state check but not in `fold`.
+    static TABLES: std::cell::RefCell<Option<(Vec<u64>, Vec<ZobristTable>)>> = const { std::cell::RefCell::new(None) };
+}
+
+fn with_tables<R>(seeds: &[u64], f: impl FnOnce(&[ZobristTable]) -> R) -> R {
+    TABLES.with(|t| {
+        let mut t = t.borrow_mut();
+        let stale = match t.as_ref() {
+            Some((s, _)) => s != seeds,
+            None => true,
+        };
+        if stale {
+            let mut v = Vec::new();
+            for s in seeds {
+                crate::zobrist::verif::set_seed(Some(*s));
+                v.push(ZobristTable::new());
+            }
+            crate::zobrist::verif::set_seed(None);
+            v.push(ZobristTable::new());
+            *t = Some((seeds.to_vec(), v));
+        }
+        f(&t.as_ref().unwrap().1)
+    })
+}
+
 struct HashCheck<'a> {
     nav: PosCheck<'a>,
     rep: &'a Report,
-    tables: &'a [ZobristTable],
+    key_seeds: &'a [u64],
     seeds: &'a [String],
+    cube_states: AtomicU64,
+    cube_hashes: AtomicU64,
     perturb_upto_depth: usize,
     perturbations: AtomicU64,
     counter_checks: AtomicU64,
@@ -28,9 +58,10 @@ struct HashCheck<'a> {
     samples: Mutex<Vec<J>>,
 }
 
+/// Fold over the seeded key sets (all but the last, per-thread unseeded one).
 fn fold(hashes: &[u64]) -> u64 {
     let mut a = 0xcbf29ce484222325u64;
-    for h in hashes {
+    for h in &hashes[..hashes.len() - 1] {
         a = (a ^ h).wrapping_mul(0x100000001b3).rotate_left(17);
     }
     a
@@ -38,7 +69,7 @@ fn fold(hashes: &[u64]) -> u64 {
 
 impl<'a> HashCheck<'a> {
     fn hashes(&self, b: &Board) -> Result<Vec<u64>, String> {
-        guard(|| self.tables.iter().map(|t| t.hash(b)).collect())
+        guard(|| with_tables(self.key_seeds, |ts| ts.iter().map(|t| t.hash(b)).collect()))
     }
 
     fn violate(&self, fen: &str, what: &str, text: String) {
@@ -110,6 +141,54 @@ impl<'a> HashCheck<'a> {
         }
     }
 
+    /// Injectivity on the decoration cube: the same placement with every consistent combination
+    /// of side to move, castling rights and en-passant target (all of them valid positions) must
+    /// hash pairwise differently -- this also covers positions that differ in two components.
+    fn cube(&self, p: &Pos) {
+        let mut variants: Vec<Pos> = Vec::new();
+        for stm in [Side::W, Side::B] {
+            let mut base = p.clone();
+            base.stm = stm;
+            base.castle = [false; 4];
+            base.ep = None;
+            for q in roots::decorations(&base) {
+                if q.is_valid() {
+                    variants.push(q);
+                }
+            }
+        }
+        if variants.len() < 2 {
+            return;
+        }
+        self.cube_states.fetch_add(1, Ordering::Relaxed);
+        let mut seen: Vec<HashMap<u64, usize>> = self.seeds.iter().map(|_| HashMap::new()).collect();
+        for (vi, q) in variants.iter().enumerate() {
+            let qb = match eng::board_of(q) {
+                Ok(b) if eng::key_of(&b) == eng::key_of_pos(q) => b,
+                _ => continue,
+            };
+            self.cube_hashes.fetch_add(1, Ordering::Relaxed);
+            match self.hashes(&qb) {
+                Ok(h) => {
+                    for (i, x) in h.iter().enumerate() {
+                        if let Some(prev) = seen[i].insert(*x, vi) {
+                            self.violate(
+                                &q.fen4(),
+                                "cube-collision",
+                                format!("two different valid positions with the same placement share the hash {:#018x} under key set {}: {:?} and {:?}", x, self.seeds[i], variants[prev].fen4(), q.fen4()),
+                            );
+                            return;
+                        }
+                    }
+                }
+                Err(e) => {
+                    self.violate(&q.fen4(), "panic", e);
+                    return;
+                }
+            }
+        }
+    }
+
     fn check(&self, b: &Board, p: &Pos, depth: usize) -> u64 {
         let fen = p.fen4();
         let base = match self.hashes(b) {
@@ -132,6 +211,7 @@ impl<'a> HashCheck<'a> {
         if depth <= self.perturb_upto_depth {
             self.perturbed_states.fetch_add(1, Ordering::Relaxed);
             self.perturb(p, &base);
+            self.cube(p);
         }
         let mut s = self.samples.lock().unwrap();
         if s.len() < 4 {
@@ -172,19 +252,16 @@ impl<'a> Visitor for HashCheck<'a> {
     }
 }
 
-pub fn make_tables(seed: u64, k: usize) -> (Vec<ZobristTable>, Vec<String>) {
-    let mut tables = Vec::new();
+pub fn make_tables(seed: u64, k: usize) -> (Vec<u64>, Vec<String>) {
+    let mut seeds = Vec::new();
     let mut names = Vec::new();
     for i in 0..k {
         let s = seed.wrapping_mul(1000).wrapping_add(i as u64 + 1);
-        crate::zobrist::verif::set_seed(Some(s));
-        tables.push(ZobristTable::new());
+        seeds.push(s);
         names.push(format!("seed {}", s));
     }
-    crate::zobrist::verif::set_seed(None);
-    tables.push(ZobristTable::new());
-    names.push("unseeded (thread_rng)".into());
-    (tables, names)
+    names.push("unseeded (thread_rng, one draw per worker thread)".into());
+    (seeds, names)
 }
 
 pub fn run(tier: &str, seed: u64, out: &str) {
@@ -199,8 +276,10 @@ pub fn run(tier: &str, seed: u64, out: &str) {
     let hc = HashCheck {
         nav: PosCheck::new(&mg, &rep, Which::Nav),
         rep: &rep,
-        tables: &tables,
+        key_seeds: &tables,
         seeds: &names,
+        cube_states: AtomicU64::new(0),
+        cube_hashes: AtomicU64::new(0),
         perturb_upto_depth: if thorough { 2 } else { 1 },
         perturbations: AtomicU64::new(0),
         counter_checks: AtomicU64::new(0),
@@ -235,6 +314,7 @@ pub fn run(tier: &str, seed: u64, out: &str) {
     let mut inj_states = 0u64;
     let mut collisions = 0u64;
     {
+        // seeded key sets only: the unseeded table differs per worker thread
         let mut seen: Vec<HashMap<u64, EKey>> = tables.iter().map(|_| HashMap::new()).collect();
         let class = roots::classes(tier).into_iter().find(|c| c.name == "F1").unwrap();
         let units: Vec<u32> = if thorough { class.units.clone() } else { class.units.iter().cloned().take(128).collect() };
@@ -252,7 +332,7 @@ pub fn run(tier: &str, seed: u64, out: &str) {
         for chunk in chunks {
             for (k, hs, fen) in chunk {
                 inj_states += 1;
-                for (i, h) in hs.iter().enumerate() {
+                for (i, h) in hs.iter().enumerate().take(tables.len()) {
                     if let Some(prev) = seen[i].insert(*h, k) {
                         if prev != k {
                             collisions += 1;
@@ -280,6 +360,8 @@ pub fn run(tier: &str, seed: u64, out: &str) {
         .set("counter_independence_checks", hc.counter_checks.load(Ordering::Relaxed))
         .set("states_perturbed", hc.perturbed_states.load(Ordering::Relaxed))
         .set("single_component_perturbations", hc.perturbations.load(Ordering::Relaxed))
+        .set("decoration_cubes", hc.cube_states.load(Ordering::Relaxed))
+        .set("decoration_cube_hashes_pairwise_distinct", hc.cube_hashes.load(Ordering::Relaxed))
         .set("injectivity_states", inj_states)
         .set("injectivity_collisions", collisions)
         .set("evaluations", gs.states + hc.perturbations.load(Ordering::Relaxed) + inj_states)
@@ -304,8 +386,10 @@ pub fn replay_one(fen: &str, seed: u64) -> i32 {
     let hc = HashCheck {
         nav: PosCheck::new(&mg, &rep, Which::Nav),
         rep: &rep,
-        tables: &tables[..3],
-        seeds: &names[..3],
+        key_seeds: &tables,
+        seeds: &names,
+        cube_states: AtomicU64::new(0),
+        cube_hashes: AtomicU64::new(0),
         perturb_upto_depth: 99,
         perturbations: AtomicU64::new(0),
         counter_checks: AtomicU64::new(0),
